@@ -107,6 +107,15 @@ def typed_equal(a, b):
             return all(typed_equal(a.get(k), b.get(k)) for k in b.list_keys())
         except Exception:
             return False
+    if callable(getattr(a, "fn_reference", None)) or callable(getattr(b, "fn_reference", None)):
+        # memento functions: equal iff they name the same function with the same bound arguments and parameter names
+        try:
+            ra, rb = a.fn_reference(), b.fn_reference()
+            return (ra.qualified_name == rb.qualified_name and typed_equal(list(ra.partial_args or ()), list(rb.partial_args or ()))
+                    and typed_equal(dict(ra.partial_kwargs or {}), dict(rb.partial_kwargs or {}))
+                    and list(ra.parameter_names or []) == list(rb.parameter_names or []))
+        except Exception:
+            return False
     if isinstance(a, BaseException) or isinstance(b, BaseException):
         from twosigma.memento.exception import MementoException
         if isinstance(a, MementoException) and isinstance(b, MementoException):
@@ -338,7 +347,211 @@ def _wrap(cls, name):
     setattr(cls, name, wrapper)
 
 
+# ---- argument keys (C04): every FunctionReferenceWithArguments the tests build ------------------------------
+_argrecs = []
+_argseen = set()
+_outside = {}
+
+
+class _Outside(Exception):
+    """a value outside the documented argument domain: the case is not recorded"""
+
+
+def _spec_of(v):
+    from twosigma.memento.reference import FunctionReference
+    if v is None:
+        return {"t": "none"}
+    if type(v) is bool:
+        return {"t": "bool", "v": v}
+    if type(v) is int:
+        return {"t": "int", "v": str(v)}
+    if type(v) is float:
+        return {"t": "float", "v": repr(v)}
+    if type(v) is str:
+        return {"t": "str", "v": v}
+    if type(v) is datetime.datetime:
+        off = v.utcoffset()
+        if off is not None and off.total_seconds() % 60:
+            raise _Outside("offset")
+        return {"t": "datetime", "v": v.isoformat()}
+    if type(v) is datetime.date:
+        return {"t": "date", "v": v.isoformat()}
+    if type(v) is list:
+        return {"t": "list", "v": [_spec_of(x) for x in v]}
+    if type(v) is dict:
+        if not all(type(k) is str for k in v):
+            raise _Outside("key")
+        return {"t": "dict", "v": [[k, _spec_of(x)] for k, x in v.items()]}
+    from twosigma.memento.types import MementoFunctionType
+    if isinstance(v, MementoFunctionType):
+        v = v.fn_reference()
+    if isinstance(v, FunctionReference):
+        return {"t": "fnref", "qn": v.qualified_name, "pargs": [_spec_of(x) for x in (v.partial_args or ())],
+                "pkw": [[k, _spec_of(x)] for k, x in (v.partial_kwargs or {}).items()],
+                "params": list(v.parameter_names or [])}
+    raise _Outside(type(v).__name__)
+
+
+def _record_args(fra):
+    try:
+        ref = fra.fn_reference
+        rec = {"qn": ref.qualified_name, "params": list(ref.parameter_names or []),
+               "pargs": [_spec_of(x) for x in (ref.partial_args or ())],
+               "pkw": [[k, _spec_of(x)] for k, x in (ref.partial_kwargs or {}).items()],
+               "args": [_spec_of(x) for x in fra.args],
+               "kw": [[k, _spec_of(x)] for k, x in fra.kwargs.items()],
+               "ctx": [[k, _spec_of(x)] for k, x in (fra.context_args or {}).items()],
+               "hash": fra.arg_hash}
+    except _Outside as e:
+        _argrecs.append(None)
+        _outside[str(e)] = _outside.get(str(e), 0) + 1
+        return
+    k = json.dumps(rec, sort_keys=True)
+    if k not in _argseen:
+        _argseen.add(k)
+        rec["test"] = _cur_test[0]
+        _argrecs.append(rec)
+
+
+def _install_args():
+    from twosigma.memento.reference import FunctionReferenceWithArguments
+    orig = FunctionReferenceWithArguments.__init__
+    if getattr(orig, "__wrapped_by_verif__", False):
+        return
+
+    def __init__(self, *a, **kw):
+        orig(self, *a, **kw)
+        try:
+            with _lock:
+                _record_args(self)
+        except Exception as e:
+            _argrecs.append({"recorder_error": "%s: %s" % (type(e).__name__, e)})
+
+    __init__.__wrapped_by_verif__ = True
+    FunctionReferenceWithArguments.__init__ = __init__
+
+
+# ---- the metadata codec (C11): every memento the tests encode ---------------------------------------------------
+_memrecs = []
+_memseen = set()
+
+
+def _fn_spec(ref):
+    return {"qn": ref.qualified_name, "params": list(ref.parameter_names or []),
+            "pargs": [_spec_of(x) for x in (ref.partial_args or ())],
+            "pkw": [[k, _spec_of(x)] for k, x in (ref.partial_kwargs or {}).items()]}
+
+
+def _fwa_spec(f):
+    return {"fn": _fn_spec(f.fn_reference), "args": [_spec_of(x) for x in f.args],
+            "kw": [[k, _spec_of(x)] for k, x in f.kwargs.items()],
+            "ctx": [[k, _spec_of(x)] for k, x in (f.context_args or {}).items()]}
+
+
+def _same_fnref(a, b):
+    return (a.qualified_name == b.qualified_name and typed_equal(list(a.partial_args or ()), list(b.partial_args or ()))
+            and typed_equal(dict(a.partial_kwargs or {}), dict(b.partial_kwargs or {}))
+            and list(a.parameter_names or []) == list(b.parameter_names or []))
+
+
+def _same_fwa(a, b):
+    return (_same_fnref(a.fn_reference, b.fn_reference) and typed_equal(list(a.args), list(b.args))
+            and typed_equal(dict(a.kwargs), dict(b.kwargs)) and typed_equal(dict(a.context_args or {}), dict(b.context_args or {})))
+
+
+def _strict_loads(text):
+    def bad(c):
+        raise ValueError("non-JSON constant " + c)
+    return json.loads(text, parse_constant=bad)
+
+
+def _record_memento(codec, mem, encoded):
+    if type(mem.time) is not datetime.datetime:
+        raise _Outside("time:" + type(mem.time).__name__)
+    im = mem.invocation_metadata
+    runner = mem.runner or {}
+    if not all(type(k) is str and type(v) is str for k, v in runner.items()):
+        raise _Outside("runner")
+    ck = mem.content_key
+    spec = {"time": mem.time.isoformat(), "fwa": _fwa_spec(im.fn_reference_with_args),
+            "invs": [_fwa_spec(x) for x in (im.invocations or [])],
+            "res": [{"rtype": r.resource_type, "url": r.url, "version": r.version} for r in (im.resources or [])],
+            "runtime": repr(im.runtime.total_seconds()), "rtype": im.result_type.name,
+            "deps": [_fn_spec(d) for d in (mem.function_dependencies or [])],
+            "runner": [[k, v] for k, v in runner.items()], "corr": mem.correlation_id,
+            "ck": [ck.key, ck.version] if ck is not None else []}
+    if not all(type(r["version"]) is str and type(r["url"]) is str for r in spec["res"]) or type(spec["corr"]) is not str:
+        raise _Outside("field types")
+    text = json.dumps(encoded)
+    k = json.dumps(spec, sort_keys=True)
+    if k in _memseen:
+        return
+    _memseen.add(k)
+    out = {"m": spec, "text": text, "strict": False, "rtok": False, "hashok": False, "exc": "", "detail": "", "test": _cur_test[0]}
+    try:
+        try:
+            doc = _strict_loads(text)
+            out["strict"] = True
+        except ValueError as e:
+            doc = json.loads(text)
+            out["detail"] = str(e)
+        back = codec.decode_memento(doc)
+        bim = back.invocation_metadata
+        checks = {
+            "time": (mem.time.tzinfo is None) == (back.time.tzinfo is None) and mem.time == back.time,
+            "fwa": _same_fwa(im.fn_reference_with_args, bim.fn_reference_with_args),
+            "invocations": len(im.invocations) == len(bim.invocations) and all(_same_fwa(x, y) for x, y in zip(im.invocations, bim.invocations)),
+            "resources": list(im.resources) == list(bim.resources),
+            "runtime": im.runtime == bim.runtime,
+            "result_type": im.result_type == bim.result_type,
+            "dependencies": len(mem.function_dependencies) == len(back.function_dependencies) and all(
+                any(_same_fnref(x, y) for y in back.function_dependencies) for x in mem.function_dependencies),
+            "runner": mem.runner == back.runner,
+            "correlation_id": mem.correlation_id == back.correlation_id,
+            "content_key": mem.content_key == back.content_key,
+        }
+        out["rtok"] = all(checks.values())
+        if not out["rtok"]:
+            out["detail"] = "differs: " + ",".join(k for k, v in checks.items() if not v)
+        out["hashok"] = bim.fn_reference_with_args.arg_hash == im.fn_reference_with_args.arg_hash
+    except Exception as e:
+        out["exc"] = "%s: %s" % (type(e).__name__, str(e)[:200])
+    _memrecs.append(out)
+
+
+def _install_codec():
+    from twosigma.memento.serialization import MementoCodec
+    raw = MementoCodec.__dict__["encode_memento"]
+    orig = raw.__func__ if isinstance(raw, (staticmethod, classmethod)) else raw
+    if getattr(orig, "__wrapped_by_verif__", False):
+        return
+    is_cls = isinstance(raw, classmethod)
+
+    def encode_memento(*a, **kw):
+        res = orig(*a, **kw)
+        if getattr(_tls, "incodec", 0):
+            return res
+        _tls.incodec = 1
+        try:
+            with _lock:
+                mem = (a[1] if is_cls else a[0]) if a else kw.get("memento")
+                try:
+                    _record_memento(MementoCodec, mem, res)
+                except _Outside as e:
+                    _outside["memento:" + str(e)] = _outside.get("memento:" + str(e), 0) + 1
+        except Exception as e:
+            _memrecs.append({"recorder_error": "%s: %s" % (type(e).__name__, e)})
+        finally:
+            _tls.incodec = 0
+        return res
+
+    encode_memento.__wrapped_by_verif__ = True
+    MementoCodec.encode_memento = classmethod(encode_memento) if is_cls else staticmethod(encode_memento)
+
+
 def install():
+    _install_args()
+    _install_codec()
     from twosigma.memento.storage_base import StorageBackendBase
     from twosigma.memento.storage_memory import MemoryStorageBackend
     from twosigma.memento.storage_null import NullStorageBackend
@@ -355,6 +568,8 @@ def dump():
     out = os.environ["VERIF_REC_OUT"]
     doc = {"events": _events,
            "stores": [{"id": s["id"], "kind": s["kind"], "cache": s["cache"], "roots": s["roots"]} for s in _stores.values()],
+           "mementos": _memrecs,
+           "args": [r for r in _argrecs if r is not None], "args_outside_domain": dict(_outside),
            "counts": {"values": len(_values), "functions": len(_fid.t), "mementos": len(_mid.t)}}
     with open(out, "w") as f:
         json.dump(doc, f)
